@@ -624,6 +624,39 @@ static int t_extract_double (const char *f, int budget)
   printf ("PASS %d\n", budget); return 0;
 }
 
+
+/* mpz_set_d / mpz_cmp_d against trunc (d) built from frexp: d = m53 * 2^(ex - 53) */
+static int t_mpz_dbl (const char *f, int budget)
+{
+  for (int it = 0; it < budget; it++)
+    {
+      union { double d; unsigned long u; } x;
+      unsigned long E = (it % 4 == 0) ? 1023 + rnd64 () % 200 : (it % 4 == 1) ? 1023 + 50 + rnd64 () % 30 : (it % 4 == 2) ? rnd64 () % 2047 : 1015 + rnd64 () % 20;
+      x.u = (rnd64 () & 1) << 63 | (E << 52) | ((it % 3) ? (rnd64 () >> 12) : ((rnd64 () >> 12) & ~((1UL << (rnd64 () % 52)) - 1)));
+      double d = x.d; int ex; double fr = frexp (fabs (d), &ex);
+      unsigned long m = (unsigned long) ldexp (fr, 53);
+      mpz_t want, z; mpz_init (want); mk_mpz (z, 4); mpz_set_ui (want, m);
+      if (ex - 53 >= 0) mpz_mul_2exp (want, want, ex - 53); else mpz_tdiv_q_2exp (want, want, 53 - ex);
+      if (d < 0) mpz_neg (want, want);
+      if (!strcmp (f, "mpz_set_d"))
+        {
+          mpz_set_d (z, d);
+          if (mpz_cmp (z, want) || !wf_z (z)) { failed (f); printf (" d=%a", d); show_z ("got", z); show_z ("want", want); printf ("\n"); return 1; }
+        }
+      else
+        {
+          if (it % 2) { mpz_set (z, want); if (it % 6 == 1) mpz_add_ui (z, z, 1); if (it % 6 == 3) mpz_sub_ui (z, z, 1); }
+          int got = mpz_cmp_d (z, d), c = mpz_cmp (z, want), w;
+          /* z vs d: z vs trunc(d) decides unless they are equal and d has a fraction */
+          int frac = (ex < 53) && (ex <= 0 ? d != 0 : (m & ((1UL << (53 - ex)) - 1)) != 0);
+          w = c ? c : (frac ? (d > 0 ? -1 : 1) : 0);
+          if ((got > 0) - (got < 0) != (w > 0) - (w < 0)) { failed (f); printf (" d=%a", d); show_z ("z", z); printf (" got=%d want sign %d\n", got, w); return 1; }
+        }
+      mpz_clear (z); mpz_clear (want);
+    }
+  printf ("PASS %d\n", budget); return 0;
+}
+
 /* mpf_cmp against the sign of an exact difference computed on integers: both operands scaled to a common exponent */
 static void mk_mpf (mpf_t f, int maxn)
 {
@@ -1082,6 +1115,7 @@ int main (int argc, char **argv)
   if (!strcmp (f, "mpz_cmp") || !strcmp (f, "mpz_cmpabs")) return t_mpz_cmp (f, budget);
   if (!strcmp (f, "mpz_tstbit") || !strcmp (f, "mpz_scan0") || !strcmp (f, "mpz_scan1")) return t_mpz_bits (f, budget);
   if (!strcmp (f, "extract_double")) return t_extract_double (f, budget);
+  if (!strcmp (f, "mpz_set_d") || !strcmp (f, "mpz_cmp_d")) return t_mpz_dbl (f, budget);
   if (!strcmp (f, "mpz_setbit") || !strcmp (f, "mpz_clrbit") || !strcmp (f, "mpz_combit") || !strcmp (f, "mpz_and") || !strcmp (f, "mpz_ior") || !strcmp (f, "mpz_xor")) return t_mpz_bitops (f, budget);
   if ((!strncmp (f, "mpz_fdiv", 8) || !strncmp (f, "mpz_cdiv", 8) || !strncmp (f, "mpz_tdiv", 8)) && strlen (f) >= 2 && !strcmp (f + strlen (f) - 2, "ui")) return t_mpz_div_ui (f, budget);
   if (!strncmp (f, "mpz_fdiv", 8) || !strncmp (f, "mpz_cdiv", 8) || !strcmp (f, "mpz_mod")) return t_mpz_div (f, budget);
